@@ -394,18 +394,14 @@ theorem pseudo_nown_t (p : Pos) (m : Mv) (hp : pseudo p m = true) : own p.wtm p.
 
 theorem pseudo_own_f (p : Pos) (m : Mv) (hp : pseudo p m = true) : own p.wtm p.b[m.f] = true := pseudo_own p m hp
 
-/-- a pseudo-legal move of a piece other than the king that does not go to the e.p. square: only the from- and
+/-- a pseudo-legal move of a piece other than the king that is not an en-passant capture: only the from- and
     to-squares change, and the king stays where it is -/
-theorem simple_of_pseudo (p : Pos) (m : Mv) (hp : pseudo p m = true) (k : Sq) (hk : KingAt p.b p.wtm k)
-    (hfk : m.f ≠ k) (hep : p.ep ≠ some m.t) :
+theorem simple_of_pseudo' (p : Pos) (m : Mv) (hp : pseudo p m = true) (k : Sq) (hk : KingAt p.b p.wtm k)
+    (hfk : m.f ≠ k) (hnep : PosImpl.isEpS p m = false) :
     SimpleMove p.b (apply p m).b p.wtm m.f m.t ∧ KingAt (apply p m).b p.wtm k := by
   have hnk : ¬ kind p.b[m.f] = 1 := by
     intro h1
     exact hfk (hk.2 _ (king_of_kind _ _ (pseudo_own_f p m hp) h1))
-  have hnep : PosImpl.isEpS p m = false := by
-    unfold PosImpl.isEpS
-    have : (p.ep == some m.t) = false := by simpa using hep
-    rw [this]; simp
   have hb := apply_b_simple p m hnep (fun h => hnk h.1)
   have hft := pseudo_ne p m hp
   have hprom := pseudo_promo p m hp
@@ -438,6 +434,16 @@ theorem simple_of_pseudo (p : Pos) (m : Mv) (hp : pseudo p m = true) (k : Sq) (h
       · rw [if_pos e2] at hs
         cases hw : p.wtm <;> rw [hw] at hs <;> cases hs
       · rw [if_neg e2] at hs; exact hk.2 s hs
+
+/-- a pseudo-legal move of a piece other than the king that does not go to the e.p. square: only the from- and
+    to-squares change, and the king stays where it is -/
+theorem simple_of_pseudo (p : Pos) (m : Mv) (hp : pseudo p m = true) (k : Sq) (hk : KingAt p.b p.wtm k)
+    (hfk : m.f ≠ k) (hep : p.ep ≠ some m.t) :
+    SimpleMove p.b (apply p m).b p.wtm m.f m.t ∧ KingAt (apply p m).b p.wtm k := by
+  apply simple_of_pseudo' p m hp k hk hfk
+  unfold PosImpl.isEpS
+  have : (p.ep == some m.t) = false := by simpa using hep
+  rw [this]; simp
 
 theorem inCheck_of_kingAt (b : Board) (hv : ValidB b) (w : Bool) (k : Sq) (hk : KingAt b w k) :
     Chess.inCheck b w = sqAttacked b w k (occBB b) := by
